@@ -43,6 +43,8 @@ LEAVES = [
     S("unbound-x"),
     7,
     [S("probe"), Q(S("leaf"))],
+    # error data that would mean something if it were evaluated again: a call form and a symbol taken out of a quoted list
+    [S("error"), Q(S("a")), [S("car"), Q([[S("probe"), Q(S("data-evaluated"))]])], [S("car"), Q([S("unbound-data")])]],
 ]
 
 
